@@ -32,7 +32,9 @@ def mergeValues (T : Tables) (kind key : String) (a b : List (List Char)) : List
   let sorted :=
     if kind == "file" then sortBy (cmpFileAccess T) c
     else if kind == "variable" then sortBy (cmpStr T.stringAlphabet) c
-    else sortBy (fun x y => weight (reqValues T kind key) x - weight (reqValues T kind key) y) c
+    else
+      let vs := if T.weightKinds.contains kind then reqValues T kind key else []
+      sortBy (fun x y => weight vs x - weight vs y) c
   compact sorted
 
 def qualEq (r o : Rule) : Bool := r.audit == o.audit && r.accessType == o.accessType
@@ -133,5 +135,181 @@ def mergeRules (T : Tables) (l : List (Option Rule)) : List (Option Rule) := mer
 
 /-- `Rules.Sort` (reference: stable insertion sort with the Sort comparator) -/
 def sortRules (T : Tables) (l : List Rule) : List Rule := sortBy (sortCmp T) l
+
+end Aa
+
+/-! ## What a list of rules means, and why `Rules.Merge` preserves it -/
+namespace Aa
+
+section Generic
+variable {Fact : Type} (T : Tables) (den : Rule → Fact → Prop) (D : Rule → Prop)
+
+/-- meaning of an entry (`nil` entries mean nothing) -/
+def denO : Option Rule → Fact → Prop
+  | none, _ => False
+  | some r, f => den r f
+
+/-- meaning of a list: union of the meanings of its entries -/
+def Den (l : List (Option Rule)) (f : Fact) : Prop := ∃ r ∈ l, denO den r f
+
+def DomO : Option Rule → Prop
+  | none => True
+  | some r => D r
+
+/-- contract of `Rule.Merge`: the merged rule means the union of the two -/
+def MergeContract : Prop :=
+  ∀ r o r', D r → D o → r.kind = o.kind → mergeRule T r o = some r' →
+    D r' ∧ ∀ f, den r' f ↔ (den r f ∨ den o f)
+
+/-- contract of the duplicate test: a rule that compares equal adds no meaning -/
+def DupContract : Prop :=
+  ∀ r o, D r → D o → r.kind = o.kind → r.kind ≠ "comment" → compareRule T r o = 0 →
+    ∀ f, den o f → den r f
+
+theorem Den_cons (x : Option Rule) (l : List (Option Rule)) (f : Fact) :
+    Den den (x :: l) f ↔ (denO den x f ∨ Den den l f) := by
+  simp [Den]
+
+theorem absorb_den (hm : MergeContract T den D) (hd : DupContract T den D)
+    (r : Option Rule) (os : List (Option Rule)) (hr : DomO D r) (hos : ∀ o ∈ os, DomO D o) (f : Fact) :
+    DomO D (absorb T r os).1 ∧ (∀ o ∈ (absorb T r os).2, DomO D o) ∧
+    ((denO den (absorb T r os).1 f ∨ Den den (absorb T r os).2 f) ↔ (denO den r f ∨ Den den os f)) := by
+  induction os generalizing r with
+  | nil => simp [absorb, hr, Den]
+  | cons o os ih =>
+    have hos' : ∀ x ∈ os, DomO D x := fun x hx => hos x (by simp [hx])
+    have ho : DomO D o := hos o (by simp)
+    -- the case "keep o, continue with the same r"
+    have keep : ∀ (r : Option Rule), DomO D r →
+        DomO D (absorb T r os).1 ∧ (∀ x ∈ o :: (absorb T r os).2, DomO D x) ∧
+        ((denO den (absorb T r os).1 f ∨ Den den (o :: (absorb T r os).2) f) ↔
+          (denO den r f ∨ Den den (o :: os) f)) := by
+      intro r hr
+      obtain ⟨h1, h2, h3⟩ := ih r hr hos'
+      refine ⟨h1, ?_, ?_⟩
+      · intro x hx
+        simp only [List.mem_cons] at hx
+        rcases hx with rfl | hx
+        · exact ho
+        · exact h2 x hx
+      · rw [Den_cons, Den_cons]
+        constructor
+        · rintro (h | h | h)
+          · rcases h3.mp (Or.inl h) with h | h <;> simp [h]
+          · simp [h]
+          · rcases h3.mp (Or.inr h) with h | h <;> simp [h]
+        · rintro (h | h | h)
+          · rcases h3.mpr (Or.inl h) with h | h <;> simp [h]
+          · simp [h]
+          · rcases h3.mpr (Or.inr h) with h | h <;> simp [h]
+    cases r with
+    | none =>
+      cases o with
+      | none =>
+        simp only [absorb]
+        obtain ⟨h1, h2, h3⟩ := ih none hr hos'
+        refine ⟨h1, h2, ?_⟩
+        rw [h3, Den_cons]; simp [denO]
+      | some oj => simp only [absorb]; exact keep none hr
+    | some ri =>
+      cases o with
+      | none => simp only [absorb]; exact keep (some ri) hr
+      | some oj =>
+        simp only [absorb]
+        split
+        · exact keep (some ri) hr
+        · rename_i hk
+          have hk : ri.kind = oj.kind := by simpa using hk
+          split
+          · rename_i hc
+            obtain ⟨h1, h2, h3⟩ := ih (some ri) hr hos'
+            refine ⟨h1, h2, ?_⟩
+            rw [h3, Den_cons]
+            constructor
+            · intro h; rcases h with h | h <;> simp [h]
+            · rintro (h | h | h)
+              · exact Or.inl h
+              · exact Or.inl (hd ri oj hr ho hk hc.1 hc.2 f h)
+              · exact Or.inr h
+          · split
+            · rename_i r' hmr
+              obtain ⟨hD', hden⟩ := hm ri oj r' hr ho hk hmr
+              obtain ⟨h1, h2, h3⟩ := ih (some r') hD' hos'
+              refine ⟨h1, h2, ?_⟩
+              rw [h3, Den_cons]
+              simp only [denO]
+              rw [hden f]
+              constructor
+              · rintro ((h | h) | h) <;> simp [h]
+              · rintro (h | h | h) <;> simp [h]
+            · exact keep (some ri) hr
+
+theorem mergeAux_den (hm : MergeContract T den D) (hd : DupContract T den D) :
+    ∀ (n : Nat) (l : List (Option Rule)), l.length ≤ n → (∀ o ∈ l, DomO D o) →
+      ∀ f, Den den (mergeAux T n l) f ↔ Den den l f := by
+  intro n
+  induction n with
+  | zero =>
+    intro l hl _ f
+    have : l = [] := List.length_eq_zero_iff.mp (by omega)
+    subst this; simp [mergeAux, Den]
+  | succ n ih =>
+    intro l hl hdom f
+    cases l with
+    | nil => simp [mergeAux, Den]
+    | cons r rs =>
+      simp only [mergeAux]
+      obtain ⟨h1, h2, h3⟩ := absorb_den T den D hm hd r rs (hdom r (by simp)) (fun o ho => hdom o (by simp [ho])) f
+      have hlen := absorb_length T r rs
+      rw [Den_cons, ih _ (by simp at hl; omega) h2 f, h3, Den_cons]
+
+/-- **Generic meaning preservation.** Under the two per-rule contracts, `Rules.Merge` neither
+drops nor adds a fact, for every list over the domain (any length, any order, `nil` entries
+included). -/
+theorem mergeRules_den (hm : MergeContract T den D) (hd : DupContract T den D)
+    (l : List (Option Rule)) (hdom : ∀ o ∈ l, DomO D o) (f : Fact) :
+    Den den (mergeRules T l) f ↔ Den den l f :=
+  mergeAux_den T den D hm hd l.length l (Nat.le_refl _) hdom f
+
+end Generic
+
+/-! ### `merge` on permission lists is a union -/
+
+theorem mem_insertBy {α : Type} (cmp : α → α → Int) (x y : α) : ∀ l, y ∈ insertBy cmp x l ↔ y = x ∨ y ∈ l
+  | [] => by simp [insertBy]
+  | z :: zs => by
+    simp only [insertBy]
+    split
+    · simp
+    · simp only [List.mem_cons, mem_insertBy cmp x y zs]
+      constructor
+      · rintro (h | h | h) <;> simp [h]
+      · rintro (h | h | h) <;> simp [h]
+
+theorem mem_sortBy {α : Type} (cmp : α → α → Int) (y : α) : ∀ l, y ∈ sortBy cmp l ↔ y ∈ l
+  | [] => by simp [sortBy]
+  | x :: xs => by simp [sortBy, mem_insertBy, mem_sortBy cmp y xs]
+
+theorem mem_compact (y : List Char) : ∀ l, y ∈ compact l ↔ y ∈ l
+  | [] => by simp [compact]
+  | [a] => by simp [compact]
+  | a :: b :: l => by
+    simp only [compact]
+    split
+    · rename_i h; subst h
+      rw [mem_compact y (a :: l)]; simp
+    · simp only [List.mem_cons, mem_compact y (b :: l)]
+
+/-- **`merge` is a union**, whatever the kind and the weight table: no permission is lost, none
+is invented. -/
+theorem mem_mergeValues (T : Tables) (kind key : String) (a b : List (List Char)) (y : List Char) :
+    y ∈ mergeValues T kind key a b ↔ (y ∈ a ∨ y ∈ b) := by
+  unfold mergeValues
+  simp only [mem_compact]
+  split
+  · rw [mem_sortBy]; simp
+  · split
+    · rw [mem_sortBy]; simp
+    · rw [mem_sortBy]; simp
 
 end Aa
